@@ -93,6 +93,14 @@ POOLS = {
         ("BoundingBox", [20, 2000, 20.001, 2100]),
         ("BoundingBox", [700, 0, 701, 1000]),
     ],
+    # boxes only, with pairs that are disjoint in time AND in frequency by small gaps (the product of two negative extents is
+    # positive), one box overlapping both neighbours, one far away on both axes
+    "boxes4": [
+        ("BoundingBox", [0, 0, 2, 1000]),
+        ("BoundingBox", [2.5, 1500, 4, 3000]),
+        ("BoundingBox", [1, 500, 3, 2000]),
+        ("BoundingBox", [5, 4000, 6, 5000]),
+    ],
     # the remaining geometry types (+ one box for cross-type pairs)
     "x7": [
         ("Point", [1, 1000]),
@@ -109,8 +117,8 @@ BUFFERS = [None, [0.5, 1000.0], [0, 0]]  # defaults (nothing passed); generous b
 
 # (pool, maximum list length, number of shards per buffer setting)
 PLAN = {
-    "quick": [("q6", 3, 32), ("thin6", 2, 2), ("mix6", 2, 2), ("tiny4", 2, 1)],
-    "thorough": [("q6", 3, 8), ("t5", 4, 40), ("x7", 3, 16), ("thin6", 3, 8), ("mix6", 3, 8), ("tiny4", 3, 4)],
+    "quick": [("q6", 3, 32), ("thin6", 2, 2), ("mix6", 2, 2), ("tiny4", 2, 1), ("boxes4", 2, 1)],
+    "thorough": [("q6", 3, 8), ("t5", 4, 40), ("x7", 3, 16), ("thin6", 3, 8), ("mix6", 3, 8), ("tiny4", 3, 4), ("boxes4", 3, 4)],
 }
 
 
